@@ -2,6 +2,7 @@ import Driver.Util
 import Driver.C20
 import Driver.C09
 import Driver.C05
+import Driver.C16
 
 def main (args : List String) : IO UInt32 := do
   let stdin ← IO.getStdin
@@ -10,4 +11,5 @@ def main (args : List String) : IO UInt32 := do
   | ["c20"] => Driver.lineLoop stdin stdout () Driver.C20.step; return 0
   | ["c09"] => Driver.lineLoop stdin stdout (Zix.Bump.init 0 0) Driver.C09.step; return 0
   | ["c05"] => Driver.lineLoop stdin stdout (⟨Zix.Ring.new 1, none⟩ : Driver.C05.St) Driver.C05.step; return 0
+  | ["c16"] => Driver.lineLoop stdin stdout ([] : List (List Nat)) Driver.C16.step; return 0
   | _ => IO.eprintln "usage: zixdriver <component> < script"; return 2
